@@ -29,6 +29,7 @@ type CallAssert struct {
 	Callee string // callee key or suffix
 	Ord    int    // 1-based, 0 = every call
 	Clause *Clause
+	Used   bool
 }
 
 type Contract struct {
